@@ -15,6 +15,19 @@ coefficients
     >= -ENV_K * 2^-53 * magnitude.
 Inactive case (smooth positive increasing data whose unconstrained fit is non-negative and non-decreasing with a
 margin): the monotonic fit must equal the unconstrained fit within single-precision tolerance.
+
+Data classes.  First stream (values of order 0.1..100): noisy increasing / decreasing / oscillating / noise / steps /
+inactive.  Second stream (small-magnitude family, same number of fits): tables of magnitude S = 4e-14..4 whose step from
+one coefficient to the next along monodim is delta = 1e-14..1e-6 (log-uniform: below, around and above any absolute
+tolerance of the solver) with S/delta = 2^2..2^22, so that a step of delta is visible in the float32 coefficients —
+gentle linear falls, mixtures (rise or steep fall followed by a gentle fall; gentle fall followed by a rise), plateaus with
+a ripple/noise of size delta, negative and zero-crossing gentle drifts, the first-stream shapes scaled by 2^-10..2^-45,
+and the inactive shape scaled by 2^-7..2^-40; half of them are small only in a part of the domain and rise to a large
+amplitude elsewhere (late along monodim or in a part of another dimension; small part 1e-1..1e-10 of the large one), half
+have 2..6 abscissae per coefficient, half have weights up to 2^12, half of the 1-d ones have 10..56 coefficients.
+The oracle is exact on the float coefficients (no tolerance): a step of -1e-9 (or -1e-40) is a decreasing pair; any
+negative coefficient is reported as well (the hypothesis of float_cumsum_monotone).  For the small-magnitude inactive shape
+the monotonic fit of 2^k*data must be 2^k times the monotonic fit of data (the constrained minimiser is homogeneous).
 """
 import json, os, struct
 from fractions import Fraction
@@ -22,6 +35,14 @@ import psvlib
 
 ENV_K = 4096            # rounding envelope of a double-precision evaluation: ENV_K * 2^-53 * sum |c| prod |basis|
 INACTIVE_TOL = 2e-5     # relative to max |coefficient| (float storage 6e-8, two different normal-equation bases)
+
+
+SHAPES = ["noisy increasing", "decreasing", "oscillating", "noise", "steps with outliers", "inactive (smooth increasing)",
+          "small magnitude: gentle linear fall (step per coefficient 1e-14..1e-6, visible in float32)",
+          "small magnitude: mixture (rise or steep fall + gentle fall, or gentle fall + rise to a large amplitude)",
+          "small magnitude: plateau with a ripple/noise of the size of the gentle step",
+          "shapes 0..4 scaled by 2^-10..2^-45", "inactive (smooth increasing) scaled by 2^-7..2^-40",
+          "small magnitude: gentle drift of a table that is negative or crosses zero"]
 
 
 def dbl(u): return struct.unpack("d", struct.pack("Q", int(u)))[0]
@@ -38,7 +59,7 @@ def build(ctx, mode):
 def describe(pline):
     w = pline.split()
     return {"problem_line": pline if len(pline) < 60000 else pline[:60000] + " ...", "ndim": int(w[1]), "monodim": int(w[2]),
-            "data": ["noisy increasing", "decreasing", "oscillating", "noise", "steps with outliers", "inactive (smooth increasing)"][int(w[3])],
+            "data": SHAPES[int(w[3])] if int(w[3]) < len(SHAPES) else w[3],
             "replay_cmd": "python3 bin/check.py C10 --replay <this file>"}
 
 
@@ -48,6 +69,12 @@ def run_harness(ctx, exe, args, tag):
         rc, out, err = ctx.run([exe] + args, timeout=90, env={"OMP_NUM_THREADS": "1", "GOTO_NUM_THREADS": "1"})
         if rc != 124: return rc, out, err, attempt
     return 124, out, err, 3
+
+
+def report(ctx, acc, signature, replay, what):
+    """ctx.report + a per-signature count (and per data class) for the evidence file"""
+    acc["reported"][signature] = acc["reported"].get(signature, 0) + 1
+    return ctx.report(signature, replay, what)
 
 
 def evaluate(ctx, cases, impl, acc):
@@ -68,21 +95,27 @@ def evaluate(ctx, cases, impl, acc):
         if k == "P":
             prob = c; acc["fits"] += 1
             if not i.startswith("fit ok"):
-                ctx.report("fit:threw", describe(prob), "monotonic fit threw on a well-posed problem: " + i)
+                report(ctx, acc, "fit:threw", describe(prob), "monotonic fit threw on a well-posed problem: " + i)
             continue
         if k == "T":
             o = next(olines); table = c
             if o != "table": ctx.tie_ok = False; ctx.broken.append({"kind": "driver rejected the fitted table", "out": o})
             coefs = [flt(u) for u in c.split()[-int(_ncoef(c)):]]
             if any(v != v or v in (float("inf"), float("-inf")) for v in coefs):
-                ctx.report("fit:nonfinite", describe(prob), "monotonic fit returned non-finite coefficients on a well-posed problem")
+                report(ctx, acc, "fit:nonfinite", describe(prob), "monotonic fit returned non-finite coefficients on a well-posed problem")
+            elif any(v < 0 for v in coefs):
+                # hypothesis of float_cumsum_monotone: the T-spline coefficients come out of the non-negative solve (C11 block3_nonneg_invariant:
+                # every exit of nnls_normal_block3 returns x >= 0), so every partial sum, in particular the first slice, is >= 0
+                j = min(range(len(coefs)), key=lambda q: coefs[q])
+                report(ctx, acc, "mono:negative-coefficient", dict(describe(prob), index=j, value=coefs[j]),
+                           "monotonic fit returned a negative coefficient c[%d] = %.9g: the non-negative solve handed a negative T-spline coefficient to the cumulative sum" % (j, coefs[j]))
             continue
         if k == "M":
             o = next(olines); acc["evaluations"] += 1
             mono_ok = o.startswith("mono=1")
             if not mono_ok:
                 pair = first_decreasing_pair(table, int(c.split()[1]))
-                ctx.report("mono:decreasing-pair", dict(describe(prob), driver=o, pair=pair),
+                report(ctx, acc, "mono:decreasing-pair", dict(describe(prob), driver=o, pair=pair),
                            "monotonic fit returned coefficients that decrease along monodim=%s: %s" % (c.split()[1], pair))
             else:
                 acc["mono_ok"] += 1
@@ -98,13 +131,26 @@ def evaluate(ctx, cases, impl, acc):
                 if len(ctx.broken) < 5: ctx.broken.append({"kind": "C10_monotone instance: exact derivative negative although monoAlongB holds", "line": c, "spec": o[2]})
             env = ENV_K * float(mag) * 2.0 ** -53
             if cval != cval or cval < -env:
-                ctx.report("deriv:negative", dict(describe(prob), point=c, impl_derivative=cval, exact_derivative=float(spec), envelope=env),
+                report(ctx, acc, "deriv:negative", dict(describe(prob), point=c, impl_derivative=cval, exact_derivative=float(spec), envelope=env),
                            "derivative along monodim is %.3e < -envelope %.3e (exact derivative of the returned spline %.3e)" % (cval, env, float(spec)))
             elif cval < 0 and float(mag) > 0:
                 acc["worst_neg_ratio"] = max(acc["worst_neg_ratio"], -cval / (float(mag) * 2.0 ** -53))
             if float(mag) > 0:
                 acc["worst_err_ratio"] = max(acc["worst_err_ratio"], abs(cval - float(spec)) / (float(mag) * 2.0 ** -53))
             if float(spec) > 0: acc["deriv_positive"] += 1
+            continue
+        if k == "H":
+            # scale equivariance (the constrained minimiser is homogeneous in the data): fit(2^k z) = 2^k fit(z)
+            w = c.split(); nc = int(w[1]); kk = int(w[2])
+            pairs = [(flt(w[3 + 2 * j]) * 2.0 ** kk, flt(w[4 + 2 * j])) for j in range(nc)]
+            acc["evaluations"] += 1; acc["scaled_checked"] += 1
+            scale = max(abs(b) for _, b in pairs) or 1.0
+            d = max(abs(a - b) for a, b in pairs) / scale
+            acc["worst_scaled_rel"] = max(acc["worst_scaled_rel"], d)
+            if d > INACTIVE_TOL:
+                report(ctx, acc, "scale:differs:small-values", dict(describe(prob), max_rel_diff=d, k=kk),
+                           "monotonic fit of a small-valued table (largest value 2^-%d) differs from 2^-%d times the monotonic fit of the same table scaled by 2^%d by %.3e of the largest coefficient%s" % (
+                               kk, kk, kk, d, " (it is identically zero)" if all(a == 0 for a, _ in pairs) else ""))
             continue
         if k == "U":
             w = c.split(); nc = int(w[1]); pairs = [(flt(w[2 + 2 * j]), flt(w[3 + 2 * j])) for j in range(nc)]
@@ -126,7 +172,7 @@ def evaluate(ctx, cases, impl, acc):
             d = max(abs(a - b) for a, b in pairs) / scale
             acc["worst_inactive_rel"] = max(acc["worst_inactive_rel"], d)
             if d > INACTIVE_TOL:
-                ctx.report("inactive:differs:%s" % ("1d" if int(pw[1]) == 1 else "nd"), dict(describe(prob), max_rel_diff=d),
+                report(ctx, acc, "inactive:differs:%s" % (("1d:small-values" if int(pw[3]) == 10 else "1d") if int(pw[1]) == 1 else "nd"), dict(describe(prob), max_rel_diff=d),
                            "constraint inactive (unconstrained fit non-negative and non-decreasing with margin) but the monotonic fit differs by %.3e relative" % d)
 
 
@@ -161,14 +207,14 @@ def first_decreasing_pair(tline, m):
 
 def new_acc():
     return {"fits": 0, "evaluations": 0, "mono_ok": 0, "deriv_points": 0, "deriv_positive": 0, "deriv_inexact": 0, "worst_neg_ratio": 0.0,
-            "worst_err_ratio": 0.0, "inactive_checked": 0, "inactive_precondition_failed": 0, "worst_inactive_rel": 0.0, "hang_retries": 0, "distinct": set()}
+            "worst_err_ratio": 0.0, "inactive_checked": 0, "inactive_precondition_failed": 0, "worst_inactive_rel": 0.0, "scaled_checked": 0, "worst_scaled_rel": 0.0, "hang_retries": 0, "distinct": set(), "reported": {}}
 
 
 def finish(ctx, acc, dist):
     ctx.coverage["evaluations"] = acc["evaluations"]
     ctx.coverage["distinct_nontrivial"] = len(acc["distinct"])
-    ctx.coverage["rule"] = ("fit problems drawn from VERIF_SEED by harness/mono_harness.cpp; a case is non-trivial when the fit returned and its coefficients "
-                            "passed monoAlongB; distinct = distinct fitted tables")
+    ctx.coverage["rule"] = ("fit problems drawn from VERIF_SEED by harness/mono_harness.cpp (two streams: ordinary magnitudes; small-magnitude tables and gentle drifts); "
+                            "a case is non-trivial when the fit returned and its coefficients passed monoAlongB; distinct = distinct fitted tables")
     ctx.coverage["input_distribution"] = dist
     ctx.coverage["measured"] = {k: v for k, v in acc.items() if k != "distinct"}
     ctx.assumptions += [
@@ -177,10 +223,11 @@ def finish(ctx, acc, dist):
         "derivative envelope %d * 2^-53 * sum|c|prod|basis| for the double-precision evaluation; measured worst ratios reported" % ENV_K,
         "OMP_NUM_THREADS=1; a scheduling-dependent hang of walk_descents (property C12) is retried up to 3 times",
         "optimality of the constrained fit in the active case is C11's subject (nnls_normal_block3), not checked here",
+        "scale equivariance fit(2^k z) = 2^k fit(z) and the inactive comparison are checked to %g of the largest coefficient; small-magnitude tables down to 2^-45 (no float32 subnormals)" % INACTIVE_TOL,
     ]
-    ctx.note("fits=%d mono_ok=%d deriv_points=%d (positive %d) worst_neg_ratio=%.1f worst_err_ratio=%.1f inactive checked=%d (precondition failed %d) worst_inactive_rel=%.2e hang_retries=%d" % (
+    ctx.note("fits=%d mono_ok=%d deriv_points=%d (positive %d) worst_neg_ratio=%.1f worst_err_ratio=%.1f inactive checked=%d (precondition failed %d) worst_inactive_rel=%.2e scaled checked=%d worst_scaled_rel=%.2e hang_retries=%d reported=%s" % (
         acc["fits"], acc["mono_ok"], acc["deriv_points"], acc["deriv_positive"], acc["worst_neg_ratio"], acc["worst_err_ratio"],
-        acc["inactive_checked"], acc["inactive_precondition_failed"], acc["worst_inactive_rel"], acc["hang_retries"]))
+        acc["inactive_checked"], acc["inactive_precondition_failed"], acc["worst_inactive_rel"], acc["scaled_checked"], acc["worst_scaled_rel"], acc["hang_retries"], json.dumps(acc["reported"], sort_keys=True)))
 
 
 def run(ctx):
@@ -194,7 +241,7 @@ def run(ctx):
             ctx.tie_ok = False; ctx.broken.append({"kind": "harness build failed", "mode": mode}); continue
         base = os.path.join(ctx.scratch, "c10_" + mode)
         n = nfits if mode == "shipped" else nfits // 5
-        rc, out, err, retries = run_harness(ctx, exe, [str(n), base + ".in", base + ".impl", base + ".stats"], mode)
+        rc, out, err, retries = run_harness(ctx, exe, [str(n), base + ".in", base + ".impl", base + ".stats", str(n)], mode)
         acc["hang_retries"] += retries
         if rc != 0:
             ctx.tie_ok = False
